@@ -84,7 +84,7 @@ def mkAnd (w x o : QRec) : QRec :=
   if o.name ≠ .ternary then
     let o := { o with bits := imax x.bits w.bits, signed := x.signed || w.signed,
                       isFloat := x.isFloat || w.isFloat }
-    let o := if w.name = .binary ∧ w.use01 then { o with intBits := x.intBits }
+    let o := if w.mode = 4 then { o with intBits := x.intBits }
              else { o with intBits := w.intBits }
     if o.name.hasPo2 then
       let o := po2Rename o
@@ -98,8 +98,10 @@ def mulMaxVal : Option Rat → Option Rat → Option Rat
   | _, _ => none
 
 def mkAdder (w x o : QRec) : QRec :=
-  let o := { o with bits := imax x.bits w.bits + 1, intBits := imax x.intBits w.intBits + 1,
-                    signed := x.signed || w.signed, isFloat := false, isPo2 := true }
+  let signed := x.signed || w.signed
+  let o := { o with signed := signed,
+                    bits := imax (x.bits - b2i x.signed) (w.bits - b2i w.signed) + 1 + b2i signed,
+                    intBits := imax x.intBits w.intBits + 1, isFloat := false, isPo2 := true }
   let o := { o with maxValPo2 := mulMaxVal x.maxValPo2 w.maxValPo2 }
   if o.name.hasPo2 then po2Rename o else o
 
